@@ -471,7 +471,13 @@ func Generate(r *hlib.Rng, class string, mtime int64) *Gen {
 		}
 	}
 	if o.Located {
-		rootMap := r.Chance(1, 3)
+		hasRootZone := false
+		for _, z := range g.Zones {
+			if len(z) == 0 {
+				hasRootZone = true // its own map lines already use the keys "." and "*."
+			}
+		}
+		rootMap := r.Chance(1, 3) && !hasRootZone
 		emptyM, empty8 := false, false
 		for _, z := range g.Zones {
 			if r.Chance(3, 4) && !(rootMap && r.Chance(3, 4)) {
@@ -510,7 +516,7 @@ func Generate(r *hlib.Rng, class string, mtime int64) *Gen {
 					}
 				}
 			}
-			if r.Chance(1, 4) {
+			if r.Chance(1, 4) && !hasRootZone {
 				g.add("8", "8"+wildText(Name{}, true)+":e1")
 			}
 			g.Subnet(locA, "10.0.0.0/8", "e1")
